@@ -4,10 +4,34 @@ Correspondence: the real WorkerComms assignment code as an op-sequence machine v
 DetSim (constructor and setter, lifespans, keep-alive call sequences): worker seen by each task vs chunk index."""
 import random
 
-from harness import gen
+from harness import gen, oracles
 from harness.common import Driver
 from harness.detcheck import run_scenarios
 from harness.pure import assign
+
+
+def _sensitive_pairs():
+    """(n, n_splits) for which cutting with the running remainder and cutting at ceil(k * size) give different chunks"""
+    import math
+    out = []
+    for n in range(5, 41):
+        for ns in range(2, min(n, 14)):
+            cs = n / ns
+            a = oracles.spec_sizes(n, None, ns, 1)
+            b, prev = [], 0
+            k = 1
+            while prev < n:
+                e = min(n, math.ceil(k * cs))
+                if e > prev:
+                    b.append(e - prev)
+                    prev = e
+                k += 1
+            if a != b:
+                out.append((n, ns))
+    return out
+
+
+SENSITIVE = _sensitive_pairs() or [(15, 9)]
 
 
 def order_scenarios(rng, n):
@@ -51,12 +75,41 @@ def order_scenarios(rng, n):
                 op['n'] = max(op['n'], 12)
                 if op.get('iterable_len') is not None:
                     op['iterable_len'] = op['n']
+        for op in sc['ops']:
+            if op['op'] == 'set' or op.get('input') == 'nd' or 'max_tasks_active' in op:
+                continue
+            r = rng.random()
+            if r < .25:
+                # lengths at which a real chunk size is sensitive to HOW it is rounded (running remainder, as documented, vs
+                # rounding k * size directly): chunk i must still be chunk i of the documented rule
+                op['n'], op['n_splits'] = rng.choice(SENSITIVE)
+                op.pop('chunk_size', None)
+                op.pop('iterable_len', None)
+            elif r < .35:
+                # both given: chunk_size decides, n_splits is ignored
+                op['n'] = rng.randint(12, 30)
+                op['chunk_size'] = rng.choice([2, 3, 4])
+                op['n_splits'] = rng.choice([2, 3])
+                op.pop('iterable_len', None)
         if rng.random() < .3:
             # apply submissions before / between the calls advance the same counter: the numbering of a call still starts at 0
             k = rng.randint(1, 5)
             sc['ops'].insert(rng.randrange(len(sc['ops']) + 1) if not via_setter else rng.randint(1, len(sc['ops'])),
                              {'op': 'apply_batch', 'tasks': [{'idx': i} for i in range(k)], 'dur': {'kind': 'map', 'map': {}, 'default': 0.01}, 'get_timeout': 30})
         scs.append(sc)
+        if rng.random() < .12:
+            # apply submissions made while a lazy call is open (its later chunks are dispatched when the consumer comes back):
+            # chunk i of that call still goes to worker i mod n_jobs
+            nj = rng.choice([2, 3, 4])
+            nn = rng.randint(8, 16)
+            k = rng.randint(1, 3)
+            scs.append({'seed': rng.randint(0, 10 ** 6), 'pool': {'n_jobs': nj, 'start_method': rng.choice(['fork', 'threading']), 'order_tasks': True,
+                                                                  'pass_worker_id': rng.random() < .5},
+                        'ops': [{'op': rng.choice(['imap', 'imap_unordered']), 'n': nn, 'chunk_size': 1, 'max_tasks_active': rng.choice([1, 2, 3]),
+                                 'consume': rng.randint(1, 3), 'elem': 'scalar'},
+                                {'op': 'apply_batch', 'tasks': [{'idx': i} for i in range(k)], 'dur': {'kind': 'map', 'map': {}, 'default': 0.0}, 'get_timeout': 30},
+                                {'op': 'resume', 'of': 0}],
+                        'relax_shape': True})
     return scs
 
 
